@@ -41,11 +41,11 @@ def r_chain(toks, brk, sp=None):
     return "".join(out)
 
 
-def render(name, toks, brk, sp=None):
-    return "let %s %s =\n  %s\n\n" % (name, PARAMS, r_chain(toks, brk, sp))
+def render(name, toks, brk, sp=None, params=None):
+    return "let %s %s =\n  %s\n\n" % (name, params or PARAMS, r_chain(toks, brk, sp))
 
 
-def transpile_chunk(ctx, wd, idx, funcs):
+def transpile_chunk(ctx, wd, idx, funcs, tool="fc"):
     """funcs: list of (name, text). Returns dict name -> tree or ('rejected', msg). Bisects on rejection."""
     res = {}
     fo = os.path.join(wd, "ch%d.fo" % idx)
@@ -54,7 +54,10 @@ def transpile_chunk(ctx, wd, idx, funcs):
     gen = fcutil.gen_name(fo)
     if os.path.exists(gen):
         os.remove(gen)
-    rc, so, se = fcutil.run_fc(ctx, [fo], timeout=600)
+    if tool == "tinyfo":
+        rc, so, se = core.sh([ctx.build("tinyfo"), fo], cwd=wd, timeout=600, env=dict(core.GOENV))
+    else:
+        rc, so, se = fcutil.run_fc(ctx, [fo], timeout=600)
     if rc == 0 and os.path.exists(gen):
         rows, perr = fcutil.goast(ctx, "exprs", gen)
         if rows is None:
@@ -75,19 +78,19 @@ def transpile_chunk(ctx, wd, idx, funcs):
     if len(funcs) == 1:
         return {funcs[0][0]: ("rejected", "fc exit %d: %s" % (rc, msg[:300]))}
     mid = len(funcs) // 2
-    res.update(transpile_chunk(ctx, wd, idx * 2 + 1000000, funcs[:mid]))
-    res.update(transpile_chunk(ctx, wd, idx * 2 + 1000001, funcs[mid:]))
+    res.update(transpile_chunk(ctx, wd, idx * 2 + 1000000, funcs[:mid], tool))
+    res.update(transpile_chunk(ctx, wd, idx * 2 + 1000001, funcs[mid:], tool))
     return res
 
 
-def run_rows(ctx, rows):
+def run_rows(ctx, rows, tool="fc", params=None):
     """rows: list of dict(toks, brk). Returns trace lines."""
-    wd = ctx.mkdir("c08")
+    wd = ctx.mkdir("c08" + tool)
     ctx.build("fc")
     fcutil.build_goast(ctx)
-    funcs = [("c%d" % i, render("c%d" % i, r["toks"], r.get("brk"), r.get("sp"))) for i, r in enumerate(rows)]
+    funcs = [("c%d" % i, render("c%d" % i, r["toks"], r.get("brk"), r.get("sp"), params)) for i, r in enumerate(rows)]
     chunks = [funcs[i:i + 1500] for i in range(0, len(funcs), 1500)]
-    parts = core.pmap(lambda a: transpile_chunk(ctx, wd, a[0], a[1]), list(enumerate(chunks)))
+    parts = core.pmap(lambda a: transpile_chunk(ctx, wd, a[0], a[1], tool), list(enumerate(chunks)))
     got = {}
     for p in parts:
         got.update(p)
